@@ -232,6 +232,10 @@ func (p *TracerProvider) UnregisterSpanProcessor(sp SpanProcessor) {
 			idx = i
 		}
 	}
+	if stopOnce == nil {
+		// sp is not registered: there is nothing to remove.
+		return
+	}
 	if stopOnce != nil {
 		stopOnce.state.Do(func() {
 			if err := sp.Shutdown(context.Background()); err != nil {
